@@ -24,9 +24,9 @@ ENCODED = [
     "resonaate.tasking.engine.centralized_engine:CentralizedTaskingEngine.calculateRewards",
     "resonaate.tasking.engine.centralized_engine:CentralizedTaskingEngine.generateTasking",
 ]
-BOUNDS = {"shapes": "all (targets x sensors) shapes 1..3 x 1..3 (quick), up to 4x4 for greedy/all-visible/random and 3x4/4x3 for Munkres (thorough)",
+BOUNDS = {"shapes": "all (targets x sensors) shapes 1..3 x 1..3 (quick), up to 4x3 / 3x4 for all policies (thorough)",
           "rewards": "arbitrary reals incl. negative, zero and tied values", "metrics": "2x2 (summation) or 1x2 (cost-constrained, combined) target-sensor grid, all metric planes, delta in (0,1)"}
-OUTSIDE = ["scipy's Hungarian algorithm itself (contract stub)", "shapes above 4x4", "metric values (Fisher information, Lyapunov exponents ...)"]
+OUTSIDE = ["scipy's Hungarian algorithm itself (contract stub)", "shapes above 4x3 / 3x4 (4x4 has 65536 visibility patterns, one path each: beyond the path budget)", "metric values (Fisher information, Lyapunov exponents ...)"]
 ASSUMPTIONS = ["scipy.optimize.linear_sum_assignment(R, maximize) -> a complete assignment (min(T,S) pairs, distinct rows/columns) that is optimal for the requested "
                "sense; which optimal one is returned on ties is chosen by the solver",
                "Generator.choice(idx, 1) -> a solver-chosen element of idx", "relabelling is claimed for tie-free columns (greedy) / unique optimum (Munkres): first-index tie-breaking is inherent"]
@@ -181,7 +181,7 @@ def o_policy(rep, policy, T, S):
             out = dec.calculate(R, V)
         return R, V, out, pre
 
-    res = explore(run, max_paths=4000, max_depth=200)
+    res = explore(run, max_paths=9000, max_depth=200)
     rep.note(f"{policy} {T}x{S}: paths={len(res)}")
     inputs = _inputs(T, S, policy)
     n = 0
@@ -262,7 +262,7 @@ def o_relabel(rep, policy, T, S):
                 o2 = dec.calculate(R2, V2)
             return o1, o2
 
-        res = explore(run, max_paths=4000, max_depth=200)
+        res = explore(run, max_paths=9000, max_depth=200)
         n = 0
         for r in res:
             if r.exc is not None:
@@ -387,7 +387,7 @@ REPLAYS = {}
 def obligations(tier):
     obs = []
     shapes = [(t, s) for t in (1, 2, 3) for s in (1, 2, 3)]
-    big = [(4, 4), (4, 2), (2, 4)] if tier == "thorough" else []
+    big = [(4, 2), (2, 4), (4, 3), (3, 4)] if tier == "thorough" else []  # 4x4 has 2^16 visibility patterns = paths: beyond the path budget
     for pol in ("greedy", "allvisible", "random", "munkres"):
         for (T, S) in shapes + (big if pol != "munkres" else ([(3, 4), (4, 3)] if tier == "thorough" else [])):
             name = f"{pol}-{T}x{S}"
